@@ -852,12 +852,18 @@ func (env *Environment) runTasksAsHooks(hooksToTrigger task.Tasks) (errorMap map
 	}
 
 	doneCh := make(chan struct{})
+	abortCh := make(chan struct{})
 
 	go func() {
 		successfulHooks := make(task.Tasks, 0)
 
 		for {
 			select {
+			case <-abortCh:
+				// the hooks could not be triggered: nobody is going to report, stop listening
+				doneCh <- struct{}{}
+				return
+
 			case tid := <-timeoutCh:
 				log.WithField("taskId", tid).Debug("incoming hook timeout")
 				thisHook := hooksToTrigger.GetByTaskId(tid)
@@ -960,6 +966,9 @@ func (env *Environment) runTasksAsHooks(hooksToTrigger task.Tasks) (errorMap map
 
 	err := env.hookHandlerF(hooksToTrigger)
 	if err != nil {
+		// the listener must not outlive this call, it would swallow the reports of hooks triggered later
+		close(abortCh)
+		<-doneCh
 		for _, h := range hooksToTrigger {
 			errorMap[h] = err
 			timer, ok := hookTimers[h.GetTaskId()]
